@@ -72,6 +72,10 @@ class PWhite(PStochasticPattern):
     def __repr__(self):
         return ("PWhite(%s,%s)" % (self.min, self.max))
 
+    def reset(self):
+        super().reset()
+        self.index = 0
+
     def __next__(self):
         min = Pattern.value(self.min)
         max = Pattern.value(self.max)
